@@ -1,6 +1,6 @@
 (* C09 -- property theorems only.  Proofs live in C09/Proofs*.v. *)
 From Coq Require Import NArith List.
-From DV Require Import Base.Outcome C09.Gen C09.Model C09.Proofs C09.ProofsZone C09.ProofsTrace.
+From DV Require Import Base.Outcome C09.Gen C09.Model C09.Proofs C09.ProofsZone C09.ProofsTrace C09.ProofsVersions.
 Import ListNotations.
 Local Open Scope N_scope.
 
@@ -122,3 +122,25 @@ Theorem C09_stale_handle_after_drop_refuted :
     query s 1 name t = ANoData (Some 1) /\ query (run s evs) 1 name t = AData 31.
 Proof. exact stale_handle_after_drop_refuted. Qed.
 Print Assumptions C09_stale_handle_after_drop_refuted.
+
+(* ---- ZoneVersions / VersionMarker (clean_versions has no caller; tied by T1 only) ---- *)
+
+Theorem C09_held_versions_never_cleaned : forall os,
+  let z := zv_run os in
+  In (zv_cur z) (zv_all z) /\ forall slot it, In (slot, it) (zv_readers z) -> In it (zv_all z).
+Proof. exact held_versions_never_cleaned. Qed.
+Print Assumptions C09_held_versions_never_cleaned.
+
+Theorem C09_clean_removes_exactly_dead : forall z it,
+  In it (zv_all z) ->
+  (In it (zv_all (fst (zv_clean z))) <-> 0 < strong_count z (snd it)).
+Proof. exact clean_removes_exactly_dead. Qed.
+Print Assumptions C09_clean_removes_exactly_dead.
+
+Theorem C09_clean_result : forall z,
+  match snd (zv_clean z) with
+  | None => zv_all (fst (zv_clean z)) = zv_all z
+  | Some m => exists it, In it (zv_all z) /\ ~ In it (zv_all (fst (zv_clean z))) /\ fst it = m
+  end.
+Proof. exact clean_result. Qed.
+Print Assumptions C09_clean_result.
